@@ -274,6 +274,9 @@ func (e *Env) Simple(text string, cols []string) (rows [][]qm.Val, err error) {
 // if none); see qm/classify.go for the classes. The whole-row class uses the
 // implementation's own flag on the parsed tree to recognise the special case.
 func (e *Env) Classify(q *qm.Q) string {
+	if qm.UnionOrderFixed(q) {
+		return qm.ClassUnionOrderFixed
+	}
 	if e.Model.NameClash(q) {
 		return qm.ClassSumNameClash
 	}
